@@ -738,7 +738,7 @@ def groupOp (op : String) (args : List String) : M Resp := do
 /-! ## Dispatch -/
 
 def isRawFamily (fam : String) : Bool :=
-  fam == "fel51" || fam == "fel26" || fam == "felv51" || fam == "felv26" ||
+  fam == "fel51" || fam == "fel26" || fam == "felv51" || fam == "felv26" || fam == "felF51" || fam == "felF26" ||
   fam == "scl52" || fam == "scl29"
 
 def handleOp (legacy : Bool) (op : String) (args : List String) : M Resp := do
